@@ -76,14 +76,14 @@ def simulate(work, n, depth, seed):
     return [dict(cfg=base, steps=json.loads(k), tag="simulate") for k in kept], r
 
 
-def run_sims(work, schedules, nrandom, mode, seed, race=False):
+def run_sims(work, schedules, nrandom, mode, seed, race=False, nfree=0):
     binp = common.build_test(work, "./clientsim/", "sim.test" + (".race" if race else ""), race=race)
     sf = work.path("schedules.%s.ndjson" % mode)
     with open(sf, "w") as f:
         for s in schedules:
             f.write(json.dumps(s) + "\n")
     out = work.path("sim.%s.ndjson" % mode)
-    env = dict(VH_OUT=out, VH_SCHEDULES=sf, VH_RANDOM=str(nrandom), VH_MODE=mode, VERIF_SEED=str(seed))
+    env = dict(VH_OUT=out, VH_SCHEDULES=sf, VH_RANDOM=str(nrandom), VH_MODE=mode, VERIF_SEED=str(seed), VH_FREE=str(nfree))
     p = common.run([binp, "-test.run", "TestSim$", "-test.timeout", "50m"], cwd=work.dir, env=env, timeout=3300)
     return out, p
 
@@ -180,7 +180,7 @@ def client_check(work, tier, seed, replay, propid):
     # 4. replay into the real clients + random scheduler runs, 5. validate every recorded execution
     mode = "c10" if propid == "C10" else "c11"
     nrandom = (150 if quick else 2500)
-    out, p = run_sims(work, lead + sims, nrandom, mode, seed)
+    out, p = run_sims(work, lead + sims, nrandom, mode, seed, nfree=(200 if quick else 4000))
     viol = []
     if p.returncode != 0:
         why = crashed(p)
